@@ -607,8 +607,52 @@ fn op_open(a: &Args) -> Args {
     vec![g(if ok { 0 } else { 1 })]
 }
 
+/// A sink that answers every write/flush call from a script (the same script the Coq model consumes).
+struct ScriptSink { script: std::collections::VecDeque<i64>, sticky: bool, out: Vec<u8> }
+impl Write for ScriptSink {
+    fn write(&mut self, buf: &[u8]) -> io::Result<usize> {
+        match self.script.pop_front() {
+            None => if self.sticky { Err(other()) } else { self.out.extend_from_slice(buf); Ok(buf.len()) },
+            Some(-1) => Err(io::Error::new(io::ErrorKind::Interrupted, "script")),
+            Some(-2) => Ok(0),
+            Some(-3) => Err(other()),
+            Some(n) if n >= 0 => { let k = (n.max(1) as usize).min(buf.len()); self.out.extend_from_slice(&buf[..k]); Ok(k) }
+            Some(_) => { self.out.extend_from_slice(buf); Ok(buf.len()) }
+        }
+    }
+    fn flush(&mut self) -> io::Result<()> {
+        match self.script.pop_front() {
+            None => if self.sticky { Err(other()) } else { Ok(()) },
+            Some(-1) => Err(io::Error::new(io::ErrorKind::Interrupted, "script")),
+            Some(-3) => Err(other()),
+            Some(_) => Ok(()),
+        }
+    }
+}
+fn op_write_all(a: &Args) -> Args {
+    let mut sink = ScriptSink { script: to_i64s(&a[0]).into(), sticky: to_usize(&a[2]) != 0, out: vec![] };
+    let buf = to_u8s(&a[1]);
+    let r = sink.write_all(&buf);
+    vec![g(r.is_err() as u8), gbytes(&sink.out), g(sink.script.len())]
+}
+fn op_run(a: &Args) -> Args {
+    let mut sink = ScriptSink { script: to_i64s(&a[0]).into(), sticky: to_usize(&a[1]) != 0, out: vec![] };
+    let data = to_u8s(&a[3]);
+    let mut off = 0usize;
+    let mut failed = false;
+    for t in to_i64s(&a[2]) {
+        let r = if t < 0 { sink.flush() } else {
+            let n = (t as usize).min(data.len() - off);
+            let r = sink.write_all(&data[off..off + n]); off += n; r };
+        if r.is_err() { failed = true; break; }
+    }
+    vec![g(failed as u8), gbytes(&sink.out)]
+}
+
 fn run_inner(op: &str, a: &Args) -> Option<Args> {
     Some(match op {
+        "c18.write_all" => op_write_all(a),
+        "c18.run" => op_run(a),
         "c18.wfault" => op_wfault(a),
         "c18.trunc" => op_trunc(a),
         "c18.rfault" => op_rfault(a),
@@ -631,7 +675,7 @@ fn run_inner(op: &str, a: &Args) -> Option<Args> {
 /// Every case runs on its own thread under a watchdog: a hang is reported as [-1; 9] (the leaked thread is abandoned),
 /// a panic as [-1; 8] — both are property violations ("no panic, no hang").
 pub fn run(op: &str, a: &Args) -> Option<Args> {
-    if op == "c18.pq_tail" || op == "c18.ipc_footer_len" { return run_inner(op, a); }
+    if op == "c18.pq_tail" || op == "c18.ipc_footer_len" || op == "c18.write_all" || op == "c18.run" { return run_inner(op, a); }
     let (tx, rx) = std::sync::mpsc::channel();
     let op2 = op.to_string();
     let a2 = a.clone();
@@ -639,7 +683,7 @@ pub fn run(op: &str, a: &Args) -> Option<Args> {
         let r = std::panic::catch_unwind(std::panic::AssertUnwindSafe(|| run_inner(&op2, &a2)));
         let _ = tx.send(r);
     }).expect("spawn");
-    match rx.recv_timeout(std::time::Duration::from_secs(60)) {
+    match rx.recv_timeout(std::time::Duration::from_secs(300)) {
         Ok(Ok(r)) => r,
         Ok(Err(_)) => Some(err(E_PANIC)),
         Err(_) => Some(vec![vec![BigInt::from(-1), BigInt::from(9)]]),
@@ -648,7 +692,7 @@ pub fn run(op: &str, a: &Args) -> Option<Args> {
 
 // ------------------------------------------------------------------------------------------ generators
 fn specs(tier: &str, r: &mut Rng) -> Vec<Spec> {
-    let reps = if tier == "thorough" { 8 } else { 1 };
+    let reps = if tier == "thorough" { 4 } else { 1 };
     let mut v = Vec::new();
     let mut add = |r: &mut Rng, fmt: usize, opts: Vec<i64>, svs: &[usize], nbs: &[usize]| {
         v.push(Spec { fmt, opts, seed: r.next() >> 16, sv: *r.pick(svs), nb: *r.pick(nbs) });
@@ -675,6 +719,8 @@ fn specs(tier: &str, r: &mut Rng) -> Vec<Spec> {
         }
         add(r, F_PARQUET, vec![0, 0, 1, 0, 1, 0, 0, 0], &all, &[0]);
         add(r, F_PARQUET, vec![0, 0, 0, 0, 1, 0, 0, 0], &[1, 2], &[40]);
+        // column chunks larger than TrackedWrite's BufWriter (8 KiB): page data goes to the sink directly
+        add(r, F_PARQUET, vec![0, 0, 0, 0, 1, 0, 0, 0], &[1], &[300]);
         for o in [vec![0, 0, 1, 0, 1, 0], vec![0, 2, 0, 1, 2, 1], vec![0, 0, 1, 0, 2, 0]] { add(r, F_PARQUET_LOW, o, &[0], &[0, 1, 2, 3]); }
         for h in [0, 1, 1] { add(r, F_CSV, vec![h], &flat, &[1, 2, 3]); }
         add(r, F_CSV, vec![1], &[1, 2], &[60]);
@@ -707,8 +753,40 @@ pub fn generate(tier: &str, r: &mut Rng, emit: &mut dyn FnMut(Case)) {
         match i % 6 { 0 => t[4..].copy_from_slice(b"ARROW1"), 1 => { t[4..].copy_from_slice(b"ARROW1"); t[3] |= 0x80; } 2 => { t[4..].copy_from_slice(b"ARROW1"); t[3] = 0; t[2] = 0; } 3 => t[4..].copy_from_slice(b"ARROW2"), 4 => { t[4..].copy_from_slice(b"ARROW1"); t[0..4].copy_from_slice(&[255, 255, 255, 127]); } _ => {} }
         emit(Case::new("c18.ipc_footer_len", vec![gbytes(&t)], &["c18.ipc_footer_len"], format!("ipctail-{}", i % 6)));
     }
+    // the sink model against std::io::Write::write_all / flush on a scripted sink
+    for i in 0..(if thorough { 20000 } else { 2500 }) {
+        let resp = |r: &mut Rng| -> i64 { match r.below(10) { 0 => -1, 1 => -2, 2 => -3, 3 | 4 => -4, 5 => 0, 6 => 1, _ => r.below(12) as i64 } };
+        let soft = |r: &mut Rng| -> i64 { match r.below(6) { 0 | 1 => -1, 2 => -4, 3 => 1, _ => r.below(9) as i64 } };
+        let n = r.below(9);
+        let script: Vec<i64> = (0..n).map(|_| if i % 3 == 0 { soft(r) } else { resp(r) }).collect();
+        let sticky = r.chance(1, 3) as u8;
+        if i % 2 == 0 {
+            let bl = r.below(14); let buf = r.bytes(bl);
+            emit(Case::new("c18.write_all", vec![gs(&script), gbytes(&buf), g(sticky)], &["c18.write_all"], format!("wa-{}-{}", n.min(3), buf.len().min(3))));
+        } else {
+            let trace: Vec<i64> = (0..r.below(6)).map(|_| if r.chance(1, 4) { -1 } else { r.below(7) as i64 }).collect();
+            let total: i64 = trace.iter().filter(|t| **t > 0).sum();
+            let data = r.bytes(total as usize);
+            emit(Case::new("c18.run", vec![gs(&script), g(sticky), gs(&trace), gbytes(&data)], &["c18.run"], format!("run-{}-{}", n.min(3), trace.len().min(3))));
+        }
+    }
     for s in specs(tier, r) {
-        let (schema, batches, ff) = artefact(&s);
+        // NB: no assertion about the implementation here - if the fault-free write or read fails (or panics), the
+        // case emitted below fails inside `run` and is reported as a violation with a replay, not as a harness error.
+        let made = std::panic::catch_unwind(std::panic::AssertUnwindSafe(|| {
+            let (schema, batches) = make_batches(s.sv, s.nb, s.seed);
+            let ff = write_run(&s, &schema, &batches, None);
+            (schema, batches, ff)
+        }));
+        let (schema, batches, ff) = match made {
+            Ok(m) if m.2.ok => m,
+            _ => {
+                let mut args = s.groups(1);
+                args.push(g(0)); args.push(g(0));
+                emit(Case::new("c18.wfault", args, &["c18.wfault.post"], format!("w-f{}-faultfree-write-fails", s.fmt)));
+                continue;
+            }
+        };
         let n = ff.trace.len();
         let det = 1;
         // ---- writer faults at every sink call
@@ -716,7 +794,7 @@ pub fn generate(tier: &str, r: &mut Rng, emit: &mut dyn FnMut(Case)) {
             // calls made by API calls (calls made later, by Drop, cannot report an error), plus "no fault"
             let na = ff.n_api.min(n);
             let mut ks: Vec<usize> = (0..na).collect();
-            let budget = if thorough { 300 } else { 40 };
+            let budget = if thorough { 150 } else { 40 };
             if ks.len() > budget {
                 // keep the first and last calls, sample the middle
                 let mut keep: Vec<usize> = (0..8.min(na)).chain(na.saturating_sub(8)..na).collect();
@@ -761,13 +839,20 @@ pub fn generate(tier: &str, r: &mut Rng, emit: &mut dyn FnMut(Case)) {
         let _ = (&schema, &batches);
         for &cap in &caps {
             let st0: Shared = Arc::new(Mutex::new(RState { calls: 0, fault: None }));
-            let full = read_all(cls, &s, &schema, Bytes::from(ff.data.clone()), Some(st0.clone()), cap);
-            assert!(full.outcome == 0, "fault-free read failed: {:?}", s);
+            let full = std::panic::catch_unwind(std::panic::AssertUnwindSafe(|| read_all(cls, &s, &schema, Bytes::from(ff.data.clone()), Some(st0.clone()), cap)));
+            if !matches!(&full, Ok(f) if f.outcome == 0) {
+                // the complete artefact does not read back: this rfault case (no fault: k beyond every call) fails in `run`
+                let mut args = s.groups(cls as i64);
+                args[2].push(BigInt::from(cap));
+                args.push(g(0)); args.push(g(1_000_000_000));
+                emit(Case::new("c18.rfault", args, &["c18.rfault.post"], format!("r-c{}-faultfree-read-fails", cls)));
+                continue;
+            }
             let ncalls = st0.lock().unwrap().calls;
             for kind in 0..4u8 {
                 let mut ks: Vec<usize> = (0..ncalls).collect();
                 if kind == 0 { ks.push(ncalls); }
-                let budget = if thorough { 200 } else { 24 };
+                let budget = if thorough { 100 } else { 24 };
                 if ks.len() > budget {
                     let mut keep: Vec<usize> = (0..6.min(ncalls)).chain(ncalls.saturating_sub(6)..ncalls).collect();
                     while keep.len() < budget { keep.push(r.below(ncalls)); }
